@@ -321,29 +321,39 @@ func (c *Client) Block(ctx context.Context, height *int64) (*ctypes.ResultBlock,
 	if height != nil && res.Block.Height != *height {
 		return nil, fmt.Errorf("block is for height %d, not for the requested height %d", res.Block.Height, *height)
 	}
+	if err := c.verifyBlock(ctx, res); err != nil {
+		return nil, err
+	}
+
+	return res, nil
+}
+
+// verifyBlock compares a block and its id (both already validated) with the
+// light block verified for the block's height.
+func (c *Client) verifyBlock(ctx context.Context, res *ctypes.ResultBlock) error {
 	if bmH, bH := res.BlockID.Hash, res.Block.Hash(); !bytes.Equal(bmH, bH) {
-		return nil, fmt.Errorf("blockID %X does not match with block %X",
+		return fmt.Errorf("blockID %X does not match with block %X",
 			bmH, bH)
 	}
 
 	// Update the light client if we're behind.
 	l, err := c.updateLightClientIfNeededTo(ctx, &res.Block.Height)
 	if err != nil {
-		return nil, err
+		return err
 	}
 
 	// Verify block.
 	if bH, tH := res.Block.Hash(), l.Hash(); !bytes.Equal(bH, tH) {
-		return nil, fmt.Errorf("block header %X does not match with trusted header %X",
+		return fmt.Errorf("block header %X does not match with trusted header %X",
 			bH, tH)
 	}
 	// The verified commit signs the whole block id, part-set header included.
 	if !res.BlockID.PartSetHeader.Equals(l.Commit.BlockID.PartSetHeader) {
-		return nil, fmt.Errorf("block id %v does not match with trusted block id %v",
+		return fmt.Errorf("block id %v does not match with trusted block id %v",
 			res.BlockID, l.Commit.BlockID)
 	}
 
-	return res, nil
+	return nil
 }
 
 // BlockByHash calls rpcclient#BlockByHash and then verifies the result.
@@ -363,26 +373,8 @@ func (c *Client) BlockByHash(ctx context.Context, hash []byte) (*ctypes.ResultBl
 	if !bytes.Equal(res.BlockID.Hash, hash) {
 		return nil, fmt.Errorf("block %X is not the requested block %X", res.BlockID.Hash, hash)
 	}
-	if bmH, bH := res.BlockID.Hash, res.Block.Hash(); !bytes.Equal(bmH, bH) {
-		return nil, fmt.Errorf("blockID %X does not match with block %X",
-			bmH, bH)
-	}
-
-	// Update the light client if we're behind.
-	l, err := c.updateLightClientIfNeededTo(ctx, &res.Block.Height)
-	if err != nil {
+	if err := c.verifyBlock(ctx, res); err != nil {
 		return nil, err
-	}
-
-	// Verify block.
-	if bH, tH := res.Block.Hash(), l.Hash(); !bytes.Equal(bH, tH) {
-		return nil, fmt.Errorf("block header %X does not match with trusted header %X",
-			bH, tH)
-	}
-	// The verified commit signs the whole block id, part-set header included.
-	if !res.BlockID.PartSetHeader.Equals(l.Commit.BlockID.PartSetHeader) {
-		return nil, fmt.Errorf("block id %v does not match with trusted block id %v",
-			res.BlockID, l.Commit.BlockID)
 	}
 
 	return res, nil
@@ -465,38 +457,47 @@ func (c *Client) Tx(ctx context.Context, hash []byte, prove bool) (*ctypes.Resul
 		return res, err
 	}
 
-	// Validate res.
-	if res.Height <= 0 {
-		return nil, errNegOrZeroHeight
-	}
-
-	// Update the light client if we're behind.
-	l, err := c.updateLightClientIfNeededTo(ctx, &res.Height)
-	if err != nil {
+	if err := c.verifyTx(ctx, res); err != nil {
 		return nil, err
-	}
-
-	// Validate the proof.
-	if err := res.Proof.Validate(l.DataHash); err != nil {
-		return nil, err
-	}
-
-	// The proof is for res.Proof.Data at position res.Proof.Proof.Index: the
-	// transaction, hash and index we return must be the proven ones.
-	if !bytes.Equal(res.Tx, res.Proof.Data) {
-		return nil, errors.New("tx does not match the transaction proven by the proof")
-	}
-	if !bytes.Equal(res.Hash, res.Tx.Hash()) {
-		return nil, errors.New("hash does not match the proven transaction")
-	}
-	if int64(res.Index) != res.Proof.Proof.Index {
-		return nil, errors.New("index does not match the proven position")
 	}
 	if !bytes.Equal(res.Hash, hash) {
 		return nil, errors.New("the proven transaction is not the requested one")
 	}
 
 	return res, nil
+}
+
+// verifyTx checks the inclusion proof of a transaction against the data hash
+// of the light block verified for the transaction's height.
+func (c *Client) verifyTx(ctx context.Context, res *ctypes.ResultTx) error {
+	// Validate res.
+	if res.Height <= 0 {
+		return errNegOrZeroHeight
+	}
+
+	// Update the light client if we're behind.
+	l, err := c.updateLightClientIfNeededTo(ctx, &res.Height)
+	if err != nil {
+		return err
+	}
+
+	// Validate the proof.
+	if err := res.Proof.Validate(l.DataHash); err != nil {
+		return err
+	}
+
+	// The proof is for res.Proof.Data at position res.Proof.Proof.Index: the
+	// transaction, hash and index we return must be the proven ones.
+	if !bytes.Equal(res.Tx, res.Proof.Data) {
+		return errors.New("tx does not match the transaction proven by the proof")
+	}
+	if !bytes.Equal(res.Hash, res.Tx.Hash()) {
+		return errors.New("hash does not match the proven transaction")
+	}
+	if int64(res.Index) != res.Proof.Proof.Index {
+		return errors.New("index does not match the proven position")
+	}
+	return nil
 }
 
 func (c *Client) TxSearch(
@@ -506,7 +507,23 @@ func (c *Client) TxSearch(
 	page, perPage *int,
 	orderBy string,
 ) (*ctypes.ResultTxSearch, error) {
-	return c.next.TxSearch(ctx, query, prove, page, perPage, orderBy)
+	res, err := c.next.TxSearch(ctx, query, prove, page, perPage, orderBy)
+	if err != nil || !prove {
+		return res, err
+	}
+
+	// Every transaction comes with an inclusion proof: verify it like Tx does.
+	// (Whether the list is complete, and TotalCount, cannot be verified.)
+	for i, tx := range res.Txs {
+		if tx == nil {
+			return nil, fmt.Errorf("tx #%d is missing", i)
+		}
+		if err := c.verifyTx(ctx, tx); err != nil {
+			return nil, fmt.Errorf("tx #%d: %w", i, err)
+		}
+	}
+
+	return res, nil
 }
 
 func (c *Client) BlockSearch(
@@ -515,7 +532,29 @@ func (c *Client) BlockSearch(
 	page, perPage *int,
 	orderBy string,
 ) (*ctypes.ResultBlockSearch, error) {
-	return c.next.BlockSearch(ctx, query, page, perPage, orderBy)
+	res, err := c.next.BlockSearch(ctx, query, page, perPage, orderBy)
+	if err != nil {
+		return nil, err
+	}
+
+	// Verify every block like Block does. (Whether the list is complete, and
+	// TotalCount, cannot be verified.)
+	for i, b := range res.Blocks {
+		if b == nil {
+			return nil, fmt.Errorf("block #%d is missing", i)
+		}
+		if err := b.BlockID.ValidateBasic(); err != nil {
+			return nil, fmt.Errorf("block #%d: %w", i, err)
+		}
+		if err := b.Block.ValidateBasic(); err != nil {
+			return nil, fmt.Errorf("block #%d: %w", i, err)
+		}
+		if err := c.verifyBlock(ctx, b); err != nil {
+			return nil, fmt.Errorf("block #%d: %w", i, err)
+		}
+	}
+
+	return res, nil
 }
 
 // Validators fetches and verifies validators.
